@@ -381,3 +381,38 @@ def numeric_programs(seed, n, host_types=False, depth=3):
         names = {k: v for k, v in names.items() if v is not None or k in ('p', 'q', 'u', 'w')}
         out.append({'names': [names], 'host': {}, 'calls': [{'src': '\n'.join(lines), 'n': 0, 'max': 400}]})
     return out
+
+
+# ---- C19: random builtins -----------------------------------------------------------------------
+def random_builtin_programs(seed, n, draws=12):
+    """Many draws per input: rand(), rand(a, b) over integer-valued bounds of every numeric type
+    (Decimal literals, 2.0, 1E+1 style results, host ints, equal / negative / large bounds),
+    rand(list), shuffle(list) for lists of length 0..4 incl. nested and duplicate elements."""
+    r = random.Random(seed)
+    bounds = [(a, b) for a in range(-3, 4) for b in range(a, 4)]
+    out = []
+    for i in range(n):
+        names = {'hi': r.choice([0, 1, 5, 10 ** 9 - 1, 10 ** 9 + 1, 10 ** 30, -(10 ** 12), 2 ** 60 + 1]),
+                 'hd': Decimal(r.choice(['2', '2.0', '1E+1', '-3', '0', '7.00'])),
+                 'l': r.choice([[], [1], [1, 1], [1, 2, 3], [[1], [1], 2], ['a', 'b', 'a', 'c'], [[1, 2], [3]], [None, True]])}
+        names['hj'] = names['hi'] + r.choice([0, 1, 2, 3])
+        c = r.randrange(8)
+        if c == 0:
+            e = 'rand()'
+        elif c in (1, 2):
+            a, b = r.choice(bounds)
+            e = 'rand(%s, %s)' % (('(- %d)' % -a) if a < 0 else a, ('(- %d)' % -b) if b < 0 else b)
+        elif c == 3:
+            e = r.choice(['rand(hi, hj)', 'rand(hi, hi)', 'rand(hd, hd)', 'rand(0, hd)', 'rand(hd, 20)', 'rand(1.0, 3.0)', 'rand(10 / 5, 6 / 2)',
+                          'rand(0 - hj, 0 - hi)', 'rand(len(l), 5)', 'rand(True, 2)'])
+        elif c == 4:
+            e = 'rand(l)'
+        elif c == 5:
+            e = 'shuffle(l)'
+        elif c == 6:
+            e = r.choice(['l[rand(0, len(l) - 1)]', 'shuffle(l)[0]', 'sorted(shuffle([3, 1, 2]))', 'rand(shuffle(l))', 'rand(1, 2, 3)', 'rand("ab")'])
+        else:
+            e = r.choice(['rand(3, 1)', 'rand(1.5, 3)', 'rand("1", 2)', 'shuffle("abc")', 'shuffle({"a": 1})', 'rand([])', 'shuffle([])'])
+        src = '[' + ', '.join([e] * draws) + ']\n[l, hi, hd]'
+        out.append({'names': [names], 'host': {}, 'calls': [{'src': src, 'n': 0, 'max': 1000}]})
+    return out
